@@ -110,6 +110,23 @@ CAUGHT = {
  "C04-5": ("C04", "message_differs_from_call_site_formatting typed_site=102", "(same mechanism as C04-2)"),
  "C04-6": ("C04", "message_differs_from_call_site_formatting typed_site=155/156", "missed at first; caught after call sites with ordered containers under user-chosen orderings (std::greater<>, a user comparator) were added"),
  "C04-7": ("C04", "crash:Aborted (quill's size asserts), crash:Bus_error", "(same mechanism as C04-1)"),
+ "C15-5": ("C15", "statements_separated_without_a_rotation_point, statement_appended_to_the_file_open_before_a_rotation_point", "(same mechanism as C15-4)"),
+ "C15-6": ("C15", "statement_appended_to_the_file_open_before_a_rotation_point, file_exceeds_size_limit", "missed at first; caught after the rotation cases varied the fsync settings (enabled, with an interval that never elapses within a case)"),
+ "C15-7": ("C15", "statement_appended_to_the_file_open_before_a_rotation_point, statements_separated_without_a_rotation_point (daily, GMT sink in a zone on DST)", ""),
+ "C13-5": ("C13", "rendered_time_differs_from_strftime, crash", "(same mechanism as C13-1 / C13-3)"),
+ "C13-6": ("C13", "rendered_time_differs_from_strftime", ""),
+ "C13-7": ("C13", "rendered_time_differs_from_strftime", ""),
+ "C14-5": ("C14", "statement_lost after_append_restart=1 naming=index", "missed at first; caught after cases in which the active file is taken away between two runs (rotated files stay) were added"),
+ "C14-6": ("C14", "statement_lost after_append_restart=0 naming=index", "missed at first; caught after an extension-less file name inside a dotted directory was added (index naming, one run)"),
+ "C11-5": ("C11", "queue_grew_for_a_statement_that_fitted", "(same mechanism as C11-3)"),
+ "C11-6": ("C11", "steady_state_log_call_allocated", ""),
+ "C11-7": ("C11", "steady_state_log_call_allocated typed_site=157", "missed at first; caught after a call site with large fixed-width char arrays (unterminated or not) was added"),
+ "C01-5": ("C01", "reservation_granted_without_released_space, data_race_overwrite_of_bytes_still_being_read", "(same mechanism as C01-3)"),
+ "C01-6": ("C01", "capacity_is_not_the_next_power_of_two_of_the_request", "missed at first (and arguably outside 'every power-of-two capacity'); caught after the queue constructor was also asked for capacities that are not powers of two"),
+ "C01-7": ("C16", "crash:Segmentation_fault (also C03: crash:Aborted)", "a Logger.h change (one byte too few reserved for dynamic-level statements): invisible to the queue-level C01 check by construction; the system-level checks that log dynamic-level statements into small queues crash"),
+ "C02-5": ("C02", "empty_reported_although_committed_records_are_outstanding", "(same mechanism as C02-3)"),
+ "C02-6": ("C02", "record_bytes_corrupted, record_lost_duplicated_reordered_or_torn, data_race_*", ""),
+ "C02-7": ("C08", "crash:Aborted (std::terminate: QuillError through a noexcept function)", "a Logger.h change: invisible to the queue-level C02 check by construction; caught by the system-level checks that log records larger than the maximum (C08)"),
  "C07-2": ("C07", "handler_notice_missing, statement_of_signalled_thread_missing, wrong_exit_status", "missed at first; caught after a second delivery of the same signal to another thread was added to C07 programs (and pause() interposed)"),
  "C11-1": ("C11", "steady_state_log_call_allocated typed_site=144/145/146", "missed at first; caught after call sites with more than twelve string values in one statement were added"),
  "C11-2": ("C11", "steady_state_log_call_allocated typed_site=130", ""),
